@@ -47,14 +47,14 @@ VARIABLES cfg, wk, pre, order, eff, left, oleft, claims, state, bad
 vars == <<cfg, wk, pre, order, eff, left, oleft, claims, state, bad>>
 
 AllWeak == {"order", "lowest", "ready", "chargeSum", "truncFirst", "rankDearest", "rankUnavailable", "truncMin", "ovhPerPod", "ovhNone",
-            "staleHash", "simKeys", "noStartup", "noRelax"}
-C13Weak == {"truncMin", "ovhPerPod", "ovhNone", "staleHash", "simKeys", "noStartup"}     \* the rules behind C13 (b)-(d)
-AllFeats == {"plain", "taint", "prefer", "limit", "limit16", "zoneA", "teamX", "min2", "notReady", "startup"}
+            "staleHash", "simKeys", "noStartup", "noRelax", "truncMinOrder"}
+C13Weak == {"truncMin", "truncMinOrder", "ovhPerPod", "ovhNone", "staleHash", "simKeys", "noStartup"}     \* the rules behind C13 (b)-(d)
+AllFeats == {"plain", "taint", "prefer", "limit", "limit16", "zoneA", "teamX", "min2", "archMin2", "notReady", "startup"}
 
 ----------------------------------------------------------------------------
 (* scenario space *)
 U == [zone |-> <<"a", "b", "~">>, ct |-> <<"od", "spot", "~">>, it |-> <<"T1", "T2", "T3", "~">>, team |-> <<"x", "y", "~">>,
-      pool |-> <<"P1", "P2", "P3", "~">>, host |-> <<"~">>, rid |-> <<"~">>]
+      arch |-> <<"amd64", "arm64", "~">>, pool |-> <<"P1", "P2", "P3", "~">>, host |-> <<"~">>, rid |-> <<"~">>]
 UNum == [k \in DOMAIN U |-> [i \in DOMAIN U[k] |-> NoInt]]
 Custom == {"team"}
 
@@ -63,14 +63,15 @@ WeightPerms == <<<<0, 1, 10>>, <<0, 10, 1>>, <<1, 0, 10>>, <<1, 10, 0>>, <<10, 0
                  <<0, 10, 10>>, <<10, 0, 10>>, <<10, 10, 0>>, <<1, 10, 10>>, <<10, 1, 10>>, <<10, 10, 1>>>>
 
 Off(z, c, price, av) == [zone |-> z, ct |-> c, price |-> price, available |-> av, rid |-> "", rcap |-> 0, cpuOv |-> 0, memOv |-> 0, podsOv |-> 0, ohCpu |-> 0, ohMem |-> 0]
-Ty(n, cpu, mem, offs) == [name |-> n, cpu |-> cpu, mem |-> mem, pods |-> 110, labels |-> <<>>, ovCpu |-> 100, ovMem |-> 0, offerings |-> offs]
+Ty(n, cpu, mem, arch, offs) == [name |-> n, cpu |-> cpu, mem |-> mem, pods |-> 110, labels |-> [arch |-> arch], ovCpu |-> 100, ovMem |-> 0, offerings |-> offs]
 \* T1 small, T2 large, T3 medium; the price order depends on the zone, on the capacity type and on availability:
 \*   any zone:  T3 (a/spot 90) < T1 (100) < T2 (300)      zone b:  T1 (120) < T3 (250) < T2 (300)
 \*   catalog 2: T3's cheap spot offering is NOT available: T1 (100) < T3 (150) < T2 (300); by DEAREST offering T1 < T3 < T2 / T1 < T2 < T3
+\* architecture: the only arm64 type (T2) is SECOND in provider order and the dearest - the two cheapest types are both amd64
 Catalog(i) ==
-    <<Ty("T1", 2000, 4096, <<Off("a", "od", 100, TRUE), Off("b", "od", 120, TRUE)>>),
-      Ty("T2", 8000, 16384, <<Off("a", "od", 400, TRUE), Off("b", "od", 300, TRUE)>>),
-      Ty("T3", 4000, 8192, <<Off("a", "spot", 90, i = 1), Off("a", "od", 150, TRUE), Off("b", "od", 250, TRUE), Off("b", "spot", 900, TRUE)>>)>>
+    <<Ty("T1", 2000, 4096, "amd64", <<Off("a", "od", 100, TRUE), Off("b", "od", 120, TRUE)>>),
+      Ty("T2", 8000, 16384, "arm64", <<Off("a", "od", 400, TRUE), Off("b", "od", 300, TRUE)>>),
+      Ty("T3", 4000, 8192, "amd64", <<Off("a", "spot", 90, i = 1), Off("a", "od", 150, TRUE), Off("b", "od", 250, TRUE), Off("b", "spot", 900, TRUE)>>)>>
 
 Dedicated == [key |-> "dedicated", value |-> "infra", effect |-> "NoSchedule"]
 Soft == [key |-> "soft", value |-> "x", effect |-> "PreferNoSchedule"]
@@ -78,7 +79,8 @@ Startup == [key |-> "startup.example/agent", value |-> "", effect |-> "NoSchedul
 PR(k, op, vals, min) == [key |-> k, op |-> op, vals |-> vals, n |-> 0, min |-> min]
 Pool(n, w, f) ==
     [name |-> n, weight |-> w,
-     reqs |-> (CASE f = "zoneA" -> <<PR("zone", "In", <<"a">>, 0)>> [] f = "min2" -> <<PR("it", "In", <<"T1", "T2">>, 2)>> [] OTHER -> <<>>),
+     reqs |-> (CASE f = "zoneA" -> <<PR("zone", "In", <<"a">>, 0)>> [] f = "min2" -> <<PR("it", "In", <<"T1", "T2">>, 2)>>
+                    [] f = "archMin2" -> <<PR("arch", "Exists", <<>>, 2)>> [] OTHER -> <<>>),
      labels |-> (IF f = "teamX" THEN [team |-> "x"] ELSE <<>>),
      taints |-> (CASE f = "taint" -> <<Dedicated>> [] f = "prefer" -> <<Soft>> [] OTHER -> <<>>),
      startup |-> (IF f = "startup" THEN <<Startup>> ELSE <<>>),
@@ -151,6 +153,7 @@ TemplateReqs(q) ==
 TypeReq(it, k) == IF k = "it" THEN MkReq(k, {it.name}, FALSE, TRUE)
                   ELSE IF k = "zone" THEN MkReq(k, {it.offerings[i].zone : i \in DOMAIN it.offerings}, FALSE, TRUE)
                   ELSE IF k = "ct" THEN MkReq(k, {it.offerings[i].ct : i \in DOMAIN it.offerings}, FALSE, TRUE)
+                  ELSE IF k \in DOMAIN it.labels THEN MkReq(k, {it.labels[k]}, FALSE, TRUE)
                   ELSE AnyReq(k)
 ItCompat(it, reqs) == \A k \in DOMAIN U : NonEmpty(Meet(TypeReq(it, k), reqs[k], k), k)
 OffCompat(o, reqs) == o.zone \in RVals(reqs["zone"], "zone") /\ o.ct \in RVals(reqs["ct"], "ct")
@@ -190,6 +193,25 @@ Orders == {s \in [1..Cardinality(Templates) -> Templates] :
              /\ \A i, j \in DOMAIN s : i # j => s[i] # s[j]
              /\ \A i, j \in DOMAIN s : i < j => (IF wk = "order" THEN QOf(s[i]).weight <= QOf(s[j]).weight ELSE QOf(s[i]).weight >= QOf(s[j]).weight)}
 
+\* multi-mutation runs (Weak = "*" / "c13") only start from the scenarios in which the weakened rule can matter at all
+Relevant(w, c) ==
+    LET P == Range(c.pools)
+        notReady == \E q \in P : q.notReady
+        startup == \E q \in P : q.startup # <<>>
+        limit16 == \E q \in P : q.limits.cpu = 16000
+        itMin == \E q \in P : \E r \in Range(q.reqs) : r.key = "it" /\ r.min > 0
+        archMin == \E q \in P : \E r \in Range(q.reqs) : r.key = "arch" /\ r.min > 0
+        plain == ~notReady /\ ~startup /\ ~limit16 /\ ~itMin /\ ~archMin
+        mt == c.options.maxTypes
+    IN CASE w = "ready" -> notReady
+         [] w \in {"staleHash", "noStartup"} -> startup
+         [] w = "chargeSum" -> limit16
+         [] w = "truncMin" -> itMin /\ mt = 1
+         [] w = "truncMinOrder" -> archMin /\ mt = 2
+         [] w \in {"truncFirst", "rankDearest"} -> plain /\ mt = 2
+         [] w = "rankUnavailable" -> plain /\ mt = 1
+         [] OTHER -> plain /\ mt = 2
+
 ----------------------------------------------------------------------------
 Batch == {PKey(p) : p \in Range(cfg.pods)}
 Pending == {k \in Batch : state[k] = "pending"}
@@ -197,6 +219,7 @@ Pending == {k \in Batch : state[k] = "pending"}
 Init ==
     /\ cfg \in ScenarioSpace
     /\ wk \in (IF Weak = "*" THEN AllWeak ELSE IF Weak = "c13" THEN C13Weak ELSE {Weak})
+    /\ (Weak \in {"*", "c13"} => Relevant(wk, cfg))
     /\ pre = [treqs |-> [n \in {"P1", "P2", "P3"} |-> TemplateReqs(QOf(n))],
               ovh |-> [n \in {"P1", "P2", "P3"} |-> [t \in {"T1", "T2", "T3"} |-> SumReq(DaemonsFor(QOf(n), TypeByName(cfg, t)))]]]
     /\ order \in Orders
@@ -268,7 +291,11 @@ ByPrice(c, s) == SortSeq(s, LAMBDA x, y : MechPrice(c, x) < MechPrice(c, y))
 Cut(s) == SubSeq(s, 1, Min2(Len(s), MaxTypes(cfg)))
 Emitted(c) == IF wk = "truncFirst" THEN ByPrice(c, Cut(c.its)) ELSE Cut(ByPrice(c, c.its))
 \* Truncate fails (the NodeClaim is dropped, its pods get an error) when the truncated list breaks a floor under the strict policy
-Sent(c) == Floor(QOf(c.pool), {TypeByName(cfg, n) : n \in Range(IF wk = "truncMin" THEN c.its ELSE Emitted(c))})
+\* (weak "truncMin": validates the untruncated list; weak "truncMinOrder": accepts when the floors are reached within the first
+\* MaxInstanceTypes options in PROVIDER order - and then sends the cheapest ones)
+ReachedEarly(c) == \E n \in 0..Min2(Len(c.its), MaxTypes(cfg)) : Floor(QOf(c.pool), {TypeByName(cfg, c.its[i]) : i \in 1..n})
+Sent(c) == IF wk = "truncMinOrder" THEN ReachedEarly(c)
+           ELSE Floor(QOf(c.pool), {TypeByName(cfg, n) : n \in Range(IF wk = "truncMin" THEN c.its ELSE Emitted(c))})
 MinOverhead(c) == MinRes({pre.ovh[c.pool][n] : n \in Range(c.its)})
 MechRequests(c) ==
     LET pods == SumReq(OrigPods(c.pods))
